@@ -130,17 +130,30 @@ class SummationGraderBase(AbstractGrader, MathMixin):
             for key in input_positions
         }
 
-    def get_limits_and_funcs(self, expression, lower_str, upper_str, varscope, funcscope):
+    def get_entry_scope(self, key, varscope, author_scope=None):
+        """
+        Returns the variable scope in which to evaluate the entry with the given key.
+
+        Entries that the student is not asked for are filled in from the author's
+        answers. These are free to use instructor variables, so they are evaluated in
+        author_scope (when provided) instead of the student's scrubbed varscope.
+        """
+        if author_scope is not None and self.true_input_positions[key] is None:
+            return author_scope
+        return varscope
+
+    def get_limits_and_funcs(self, expression, lower_str, upper_str, varscope, funcscope,
+                             author_scope=None):
         """
         Evals lower/upper limits and gets the functions used in limits and integrand/summand.
         """
         lower, lower_used = evaluator(lower_str,
-                                      variables=varscope,
+                                      variables=self.get_entry_scope('lower', varscope, author_scope),
                                       functions=funcscope,
                                       suffixes=self.suffixes,
                                       allow_inf=True)
         upper, upper_used = evaluator(upper_str,
-                                      variables=varscope,
+                                      variables=self.get_entry_scope('upper', varscope, author_scope),
                                       functions=funcscope,
                                       suffixes=self.suffixes,
                                       allow_inf=True)
@@ -436,7 +449,9 @@ class IntegralGrader(SummationGraderBase):
                 raise ConfigError(msg.format(str(error)))
 
             # Before performing student evaluation, scrub the instructor
-            # variables so that students can't use them
+            # variables so that students can't use them. Entries that the student
+            # isn't asked for are the author's own, and may still use them.
+            author_scope = varlist.copy() if var_blacklist else None
             for key in var_blacklist:
                 del varlist[key]
 
@@ -446,7 +461,8 @@ class IntegralGrader(SummationGraderBase):
                 student_input['upper'],
                 student_input['integration_variable'],
                 varscope=varlist,
-                funcscope=funclist
+                funcscope=funclist,
+                author_scope=author_scope
                 )
 
             # scipy raises integration warnings when things go wrong,
@@ -487,9 +503,10 @@ class IntegralGrader(SummationGraderBase):
         return instructor_evals, student_evals, used_funcs
 
     def evaluate_int(self, integrand_str, lower_str, upper_str, integration_var,
-                     varscope=None, funcscope=None):
+                     varscope=None, funcscope=None, author_scope=None):
         varscope = {} if varscope is None else varscope
         funcscope = {} if funcscope is None else funcscope
+        integrand_scope = self.get_entry_scope('integrand', varscope, author_scope)
 
         # It is possible that the integration variable might appear in the limits.
         # Some consider this bad practice, but many students do it and Mathematica allows it.
@@ -497,16 +514,17 @@ class IntegralGrader(SummationGraderBase):
         # Let's store the integration variable's initial value in case it has one.
         int_var_initial = varscope[integration_var] if integration_var in varscope else None
 
-        lower, upper, used_funcs = self.get_limits_and_funcs(integrand_str, lower_str, upper_str, varscope, funcscope)
+        lower, upper, used_funcs = self.get_limits_and_funcs(integrand_str, lower_str, upper_str,
+                                                             varscope, funcscope, author_scope)
 
         if isinstance(lower, complex) or isinstance(upper, complex):
             raise IntegrationError('Integration limits must be real but have evaluated '
                                    'to complex numbers.')
 
         def raw_integrand(x):
-            varscope[integration_var] = x
+            integrand_scope[integration_var] = x
             value, _ = evaluator(integrand_str,
-                                 variables=varscope,
+                                 variables=integrand_scope,
                                  functions=funcscope,
                                  suffixes=self.suffixes)
             return value
@@ -717,7 +735,9 @@ class SumGrader(SummationGraderBase):
                 raise ConfigError(msg.format(str(error)))
 
             # Before performing student evaluation, scrub the instructor
-            # variables so that students can't use them
+            # variables so that students can't use them. Entries that the student
+            # isn't asked for are the author's own, and may still use them.
+            author_scope = varlist.copy() if var_blacklist else None
             for key in var_blacklist:
                 del varlist[key]
                 
@@ -728,7 +748,8 @@ class SumGrader(SummationGraderBase):
                 student_input['upper'],
                 student_input['summation_variable'],
                 varscope=varlist,
-                funcscope=funclist
+                funcscope=funclist,
+                author_scope=author_scope
             )
 
             # Save results
@@ -744,9 +765,10 @@ class SumGrader(SummationGraderBase):
         return instructor_evals, student_evals, used_funcs
 
     def evaluate_sum(self, summand_str, lower_str, upper_str, summation_var,
-                     varscope=None, funcscope=None):
+                     varscope=None, funcscope=None, author_scope=None):
         varscope = {} if varscope is None else varscope
         funcscope = {} if funcscope is None else funcscope
+        summand_scope = self.get_entry_scope('summand', varscope, author_scope)
 
         # Unlike integration, we do not allow the summation variable to appear in
         # the limits of the sum. Make sure the summation variable is not defined
@@ -757,7 +779,8 @@ class SumGrader(SummationGraderBase):
             raise SummationError(msg.format(summation_var))
 
         # Evaluate the limits, and find the functions that will be used.
-        lower, upper, used_funcs = self.get_limits_and_funcs(summand_str, lower_str, upper_str, varscope, funcscope)
+        lower, upper, used_funcs = self.get_limits_and_funcs(summand_str, lower_str, upper_str,
+                                                             varscope, funcscope, author_scope)
 
         # Check to ensure that sum limits are not complex.
         if isinstance(lower, complex) or isinstance(upper, complex):
@@ -775,12 +798,12 @@ class SumGrader(SummationGraderBase):
             Helper function to evaluate the summand at the given value of the
             summation variable.
             """
-            varscope[summation_var] = x
+            summand_scope[summation_var] = x
             value, _ = evaluator(summand_str,
-                                 variables=varscope,
+                                 variables=summand_scope,
                                  functions=funcscope,
                                  suffixes=self.suffixes)
-            del varscope[summation_var]
+            del summand_scope[summation_var]
             return value
 
         # Check if used_funcs includes a factorial function
